@@ -70,23 +70,21 @@ CHECKS = {
                   "of removed offsets, compared with the extracted model and judged by check_latest_preserved / check_updates / "
                   "check_deletes on the implementation output.",
              ref='6/C16', technique='Coq proof (folds, soundness of the selection, latest-value preservation, DeleteMulti composition) + differential correspondence'),
- 'C10': dict(text="Partial. Proved (Coq), for every hash function: on every state satisfying KInv (exact derived index files; proved for "
-                  "every reachable state of a session that keeps its options) whose index timestamps equal the message times (TS) and "
-                  "whose live message times never decrease with offset and are not negative, GetByTime returns the live message with the "
-                  "smallest offset whose time is not before the argument, ErrNotFound if every live message is earlier, "
-                  "ErrInvalidOffset/NotFound without live messages, ErrNoIndex without the time index - for any number and layout of "
-                  "segments (empty ones included), after any deletes, and whether an index was read from its file or rebuilt: the "
-                  "newest-to-oldest walk with its before-start/after-end hand-off is proved equal to 'first message at or after ts of "
-                  "the concatenation'; the in-segment lower bound is characterised for arrays of any length; a rebuilt index is "
-                  "faithful exactly for monotone non-negative times. Not yet proved: that TS holds on every state reached by a history "
-                  "with monotone publish times (it is preserved by the lazy index load, proved; by publish/delete/reopen only through "
-                  "the correspondence). The known finding F11 (pre-1970 times) is a theorem of the model too (a vm_compute witness). Tied "
-                  "to /repo by seeded histories with monotone times (ties, equal runs, jumps, tiny rollover sizes, deletes, reopen with "
-                  "index removal): GetByTime/OffsetByTime for every t in [min-2, max+2] after every step, compared with the extracted "
-                  "model and judged by check_get_by_time; non-monotone histories are compared with the model only.",
-             ref='6/C10', technique='Coq proof (time lookups refine the abstract log under the exact-index invariant) + differential correspondence',
-             note="TS (index timestamps = message times) is a hypothesis of the log-level theorem whose preservation by publish/delete/reopen "
-                  "in monotone histories is not yet proved. " + COMMON_NOTE),
+ 'C10': dict(text="Proof (Coq), for every hash function: on every state reached by ANY history (publishes with rollover, deletes, reads "
+                  "with lazy index rebuilds, close/reopen in any mode, index removal, Migrate, Recover) that keeps its index options and "
+                  "whose publish times never decrease and are not negative, GetByTime returns the live message with the smallest offset "
+                  "whose time is not before the argument, ErrNotFound if every live message is earlier, ErrInvalidOffset/NotFound without "
+                  "live messages, ErrNoIndex without the time index - for any number and layout of segments (empty ones included), after "
+                  "any deletes, and whether an index was read from its file or rebuilt. The proof: an invariant over histories with a "
+                  "ghost bound T (largest time published so far): index files are exactly the derived ones (KInv) and their timestamps "
+                  "equal the message times (TS); the newest-to-oldest walk with its before-start/after-end hand-off equals 'first "
+                  "message at or after ts of the concatenation' for every segmentation; the in-segment lower bound is characterised for "
+                  "arrays of any length. The read-only handle of an empty directory is excluded from the history theorem (it has no "
+                  "messages). The known finding F11 (pre-1970 times) is a theorem of the model too (a vm_compute witness). Tied to /repo "
+                  "by seeded histories with monotone times (ties, equal runs, jumps, tiny rollover sizes, deletes, reopen with index "
+                  "removal): GetByTime/OffsetByTime for every t in [min-2, max+2] after every step, compared with the extracted model and "
+                  "judged by check_get_by_time; non-monotone histories are compared with the model only.",
+             ref='6/C10', technique='Coq proof (invariant over monotone histories; time lookups refine the abstract log) + differential correspondence'),
  'C09': dict(text="Proof (Coq), for EVERY hash function (in particular one under which all keys collide): on every state satisfying KInv - "
                   "Inv plus: every index file present is exactly the index derived from its log file, key hashes included - GetByKey "
                   "returns the live message with the greatest offset whose key is byte-for-byte the argument (nil and empty keys are the "
